@@ -67,6 +67,11 @@ TReset == /\ IsEv("Reset")
 TImport == /\ IsEv("Import") /\ Known(Ev.b)
            /\ IF Ev.trunk THEN ImportBest(Ev.b) ELSE ImportSide(Ev.b)
            /\ Observed
+\* the node packed a block of its own (real doPack) on the parent of its packing flow - which is the best block only if
+\* nothing better arrived between scheduling and packing; trunk: the repository's best block is the new block afterwards
+TPack == /\ IsEv("Pack") /\ Known(Ev.b) /\ Par(Ev.b) = Ev.flowParent
+         /\ Pack(Ev.b, Ev.trunk)
+         /\ Observed
 \* a delivery that stores nothing
 TIgnore == /\ IsEv("Ignore") /\ Known(Ev.b) /\ up
            /\ (Ev.class = "known" <=> Ev.b \in stored)
@@ -96,7 +101,7 @@ TSyncCancel == /\ IsEv("SyncCancel")
                /\ Observed
 \* bounds of the sequence packing probed on a throw-away log db: a block whose only transaction (index Ev.ti) carries
 \* Ev.count events; the write fails iff the last log index does not fit; otherwise the newest row reads back as logged
-TPack == /\ IsEv("Pack")
+TSeqBound == /\ IsEv("SeqBound")
          /\ UNCHANGED vars
          /\ Ev.err = ~SeqOK(<<Ev.n, Ev.ti, Ev.count - 1>>)
          /\ (~Ev.err => Ev.last = <<Ev.n, Ev.ti, Ev.count - 1>> /\ Ev.rows = Ev.count)
@@ -148,7 +153,7 @@ TApi == /\ IsEv("Api") /\ up /\ logging
 
 TNext == /\ l' = l + 1
          /\ (TReset \/ TImport \/ TIgnore \/ TCrash \/ TRestart \/ TQ \/ TApi
-             \/ TWriteErr \/ TStop \/ TStartSkipLogs \/ TImportNoLog \/ TSyncCancel \/ TPack)
+             \/ TWriteErr \/ TStop \/ TStartSkipLogs \/ TImportNoLog \/ TSyncCancel \/ TSeqBound \/ TPack)
          \* an Error event (a call into thor code returned an unexpected error or panicked) matches no action
 TSpec == TInit /\ [][TNext]_tvars
 
